@@ -201,6 +201,14 @@ class Session:
             pass
 
     def observe(self, r):
+        try:
+            return self._observe(r)
+        except core.InfraError:
+            raise
+        except Exception as e:   # a read that raises is an observation too (never an infrastructure error)
+            return {"r": r, "observe_error": "%s: %s" % (err_name(e), str(e)[:120])}
+
+    def _observe(self, r):
         da = self.da
         dtn = dtype_name(da)
         whole = da[:]
@@ -280,12 +288,23 @@ def run_impl(case, path):
 
 def _worker_impl(args):
     k, case, path = args
-    return k, run_impl(case, path)
+    try:
+        return k, run_impl(case, path)
+    except core.InfraError:
+        raise
+    except Exception as e:
+        return k, {"impl_exception": "%s: %s" % (type(e).__name__, str(e)[:200])}
 
 
 def _worker_oracle(args):
     k, case, path = args
-    f, n = oracle_case(case, path)
+    try:
+        f, n = oracle_case(case, path)
+    except core.InfraError:
+        raise
+    except Exception as e:
+        f, n = Failure("unexpected exception while writing/reading the array", case,
+                       "%s: %s" % (type(e).__name__, str(e)[:200]), "no exception", "nixio"), 1
     return k, (f.to_json() if f is not None else None), n
 
 
@@ -329,43 +348,73 @@ def append_valid(shape, dshape, axis):
     return all(s == d for i, (s, d) in enumerate(zip(shape, dshape)) if i != axis)
 
 
+def bcast_shape(dshape, tshape):
+    """the source shape with surplus leading 1-extents stripped if it broadcasts to the target shape (NumPy rule:
+    aligned from the last axis, every source extent is 1 or the target extent), else None"""
+    ds = list(dshape)
+    while len(ds) > len(tshape) and ds[0] == 1:
+        ds = ds[1:]
+    if len(ds) > len(tshape):
+        return None
+    for a, b in zip(reversed(ds), reversed(list(tshape))):
+        if a != 1 and a != b:
+            return None
+    return ds
+
+
+def _mirror_assign(mirror, ix, d):
+    try:
+        target = mirror[ix]
+    except Exception:
+        return "refuse", None
+    tshape = np.shape(target)
+    ds = bcast_shape(d.shape, tshape)
+    if ds is None:
+        if 0 in d.shape[:max(0, len(d.shape) - len(tshape))]:
+            return "any", None          # zero-length surplus dimension: h5py does not check it (outside the generators)
+        return "refuse", None
+    new = mirror.copy()
+    src = d.astype(mirror.dtype).reshape(ds)
+    if tshape == ():
+        new[ix] = src.reshape(())[()]
+    else:
+        full = np.empty(tshape, dtype=mirror.dtype)
+        full[...] = np.broadcast_to(src, tshape)
+        new[ix] = full
+    return "ok", new
+
+
+def in_h5py_hole(mirror, st):
+    """write/assign whose source has a zero-length dimension beyond the rank of the target selection: h5py accepts
+    it without a size check and copies from an empty buffer"""
+    if st[0] == "write":
+        ix, d = (slice(None),), st[1]
+    elif st[0] == "assign":
+        ix, d = to_index(st[1]), st[2]
+    else:
+        return False
+    try:
+        tshape = np.shape(mirror[ix])
+    except Exception:
+        return False
+    dshape = d["shape"]
+    return 0 in dshape[:max(0, len(dshape) - len(tshape))]
+
+
 def mirror_step(mirror, dtn, st):
     """expected outcome on the numpy mirror: ('ok', new) | ('refuse', None) | ('any', None)"""
     op = st[0]
     if op == "reopen":
         return "ok", mirror
     if op == "write":
-        d = arr_to_np(st[1])
-        if d.shape == mirror.shape:
-            new = mirror.copy()
-            new[...] = d.astype(mirror.dtype)
-            return "ok", new
-        return "any", None
+        return _mirror_assign(mirror, (slice(None),), arr_to_np(st[1]))
     if op == "assign":
-        d = arr_to_np(st[2])
         ix = to_index(st[1])
-        try:
-            target = mirror[ix]
-        except Exception:
-            return "refuse", None
         if any(isinstance(i, slice) and i.step is not None and i.step < 1 for i in ix):
             return "any", None          # numpy accepts negative steps, h5py does not: not a C01 matter
         if len(ix) > mirror.ndim:
             return "refuse", None
-        tshape = np.shape(target)
-        if d.shape == tshape or d.shape == ():
-            new = mirror.copy()
-            new[ix] = d.astype(mirror.dtype) if d.shape != () else d.astype(mirror.dtype)[()]
-            return "ok", new
-        # broadcastable sources: numpy decides; both libraries agree on trailing alignment with 1-extents
-        try:
-            new = mirror.copy()
-            new[ix] = d.astype(mirror.dtype)
-            if 0 in d.shape and int(np.prod(tshape)) != 0:
-                return "any", None
-            return "ok", new
-        except Exception:
-            return "any", None
+        return _mirror_assign(mirror, ix, arr_to_np(st[2]))
     if op == "append":
         d = np.ascontiguousarray(arr_to_np(st[1]))      # documented: the result has ndim >= 1
         if append_valid(mirror.shape, d.shape, st[2]):
@@ -438,6 +487,9 @@ def oracle_case(case, path):
             nonlocal n
             obs = sess.observe("ok")
             n += 1
+            if "observe_error" in obs:
+                return Failure("reading the array raised (%s)" % where, dict(case, steps=case["steps"][:k]),
+                               obs["observe_error"], _brief(mirror, dtn), "DataSet.__getitem__")
             if obs["dtype"] != dtn:
                 return Failure("element type changed (%s)" % where, dict(case, steps=case["steps"][:k]), obs["dtype"],
                                dtn, "DataSet.dtype")
@@ -493,6 +545,9 @@ def oracle_case(case, path):
                     continue
                 # accepted a write whose meaning the oracle does not fix: resynchronise the mirror from a read
                 obs = sess.observe("ok")
+                if "observe_error" in obs:
+                    return Failure("reading the array raised", dict(case, steps=case["steps"][:k]),
+                                   obs["observe_error"], "the stored elements", "DataSet.__getitem__"), n + 1
                 mirror = arr_to_np({"dt": dtn, "shape": obs["shape"], "flat": obs["flat"]}).astype(
                     mirror_dtype(dtn)) if dtn != "string" else arr_to_np(
                     {"dt": dtn, "shape": obs["shape"], "flat": obs["flat"]})
@@ -502,7 +557,7 @@ def oracle_case(case, path):
                     obs = sess.observe("ok")
                     return Failure("%s that cannot be performed was neither performed nor refused" % st[0],
                                    dict(case, steps=case["steps"][:k]),
-                                   {"result": "accepted", "shape": obs["shape"], "flat": obs["flat"][:64]},
+                                   {"result": "accepted", "shape": obs.get("shape"), "flat": (obs.get("flat") or [])[:64]},
                                    "refused (an error) and the array unchanged", "DataSet.%s" % st[0]), n + 1
                 f = check("after refused step %d %s" % (k, st[0]), k)
                 if f:
@@ -779,19 +834,22 @@ class Gen:
             cur = None
             self.tag("create.nothing")
         steps = []
-        if cur is not None:
+        # the generator follows the array exactly (numpy mirror), so that "valid"/"malformed" tags mean what they
+        # say and sources with a zero-length surplus dimension (an h5py hole, see ASSUMPTIONS) are never produced
+        exp, dtn, mirror = expected_create({"create": create})
+        if exp == "ok":
             size_cap = 600
             for _ in range(r.randint(2, 12)):
-                st, new = self.step(cdt, cur)
-                n = 1
-                for s in (new or cur):
-                    n *= s
-                if n > size_cap:
+                st, _new = self.step(dtn, list(mirror.shape))
+                if in_h5py_hole(mirror, st):
+                    self.tag("skipped.zero-length-surplus-source")
                     continue
+                e2, new = mirror_step(mirror, dtn, st) if st[0] != "read" else ("ok", mirror)
+                if e2 == "ok":
+                    if new.size > size_cap:
+                        continue
+                    mirror = new
                 steps.append(st)
-                # the generator tracks the shape optimistically (valid steps succeed)
-                if new is not None:
-                    cur = new
         return {"fc": fc, "bc": bc, "ac": ac,
                 "refetched": (r.random() < 0.2) if refetched is None else refetched,
                 "create": create, "steps": steps}
@@ -892,10 +950,11 @@ def correspondence(ctx):
         if o.get("create") != "ok":
             errs_impl["create:" + str(o.get("create"))] = errs_impl.get("create:" + str(o.get("create")), 0) + 1
         else:
-            compr_seen.add((c["fc"], c["bc"], c["ac"], bool(c["refetched"]), o["first"]["compressed"]))
-            rk = len(o["first"]["extent"])
+            first = o.get("first", {})
+            compr_seen.add((c["fc"], c["bc"], c["ac"], bool(c["refetched"]), first.get("compressed")))
+            rk = len(first.get("extent", []))
             ranks[rk] = ranks.get(rk, 0) + 1
-            dts[o["first"]["dtype"]] = dts.get(o["first"]["dtype"], 0) + 1
+            dts[first.get("dtype")] = dts.get(first.get("dtype"), 0) + 1
         for st, s in zip(c["steps"], o.get("steps", [])):
             nsteps += 1
             if s.get("r") != "ok":
@@ -914,7 +973,11 @@ def correspondence(ctx):
         c = {"fc": t[1], "bc": t[2], "ac": t[3], "refetched": t[4],
              "create": {"dtype": None, "shape": [2], "data": None}, "steps": []}
         im = run_impl(c, ctx.tmpfile("t.nix"))
-        got = {"ok": im["ok"]["first"]["compressed"]} if im.get("ok", {}).get("create") == "ok" else im
+        try:
+            im = run_impl(c, ctx.tmpfile("t.nix"))
+        except Exception as e:
+            im = {"impl_exception": "%s: %s" % (type(e).__name__, str(e)[:200])}
+        got = {"ok": im["ok"]["first"].get("compressed")} if im.get("ok", {}).get("create") == "ok" else im
         if got != m:
             disagreements.append(Disagreement(t, m, got))
     shrunk = []
